@@ -36,13 +36,15 @@ Cfgs ==
 NExt(cfg) == IF cfg.kind = "biclique" THEN cfg.nc ELSE 1
 
 Ops(s) ==
-  (IF Len(s.hist) < MaxSteps
+  (IF Len(s.hist) < (IF s.fb0 # 0 THEN 2 ELSE MaxSteps)     \* (tokens grow with every step: 32-bit integers)
    THEN {[a |-> "step", x |-> x] :
            x \in {v \in [1..NExt(s.cfg) -> (IF Partial /\ s.cfg.kind = "biclique" THEN Toks \cup {0} ELSE Toks)] :
                     \E c \in 1..NExt(s.cfg) : v[c] # 0}}
    ELSE {})
   \cup {[a |-> "clear"]}
-  \cup (IF s.cfg.kind = "recurrent" /\ s.fb # -1 THEN {[a |-> "clear_fb"]} ELSE {})
+  \cup (IF s.cfg.kind # "recurrent" \/ s.fb # -1 THEN {[a |-> "clear_fb"]} ELSE {})      \* clear(submodules=False)
+  \cup (IF s.cfg.kind = "recurrent" /\ s.fb0 = 0 /\ Len(s.hist) <= 1
+        THEN {[a |-> "clear_keepfb"]} ELSE {})                                              \* clear(clear_feedback=False)
   \cup (IF s.w < WMax THEN {[a |-> "learn"]} ELSE {})
 
 Init == \E cfg \in Cfgs : st = InitState(cfg, 0, [n \in 1..cfg.nn |-> 0])
@@ -58,7 +60,8 @@ TypeOK ==
   /\ \A n \in 1..st.cfg.nn : st.ad[n] >= Len(st.hist)
   /\ Len(st.hist) <= MaxSteps
   /\ (st.cfg.kind # "recurrent") => st.fb = -1
-  /\ (st.hist = <<>>) => Dyn(st) = Dyn(InitState(st.cfg, st.w, st.ad))     \* nothing survives a clear
+  /\ (st.hist = <<>> /\ st.fb0 = 0) => Dyn(st) = Dyn(InitState(st.cfg, st.w, st.ad))   \* nothing survives a clear
+  /\ (st.hist = <<>> /\ st.fb0 # 0) => st.fb = st.fb0      \* ... but the feedback spikes it was asked to keep
 
 \* C17, every operation at every reachable state: outputs are the documented dataflow
 \* applied to the history since the last clear; clear succeeds and restores
